@@ -32,6 +32,8 @@ type Pool struct {
 	// Recycle, when set, is asked after every answer whether the worker process must be replaced by a new one
 	// (e.g. the job made the real code leak descriptors).
 	Recycle func(answer json.RawMessage) bool
+	// Limit, when > 0, is the number of workers Run uses at a time (lowered when the machine is short of resources).
+	Limit int
 	workers []*worker
 	// Crashed counts worker deaths.
 	Crashed atomic.Int64
@@ -140,7 +142,11 @@ func (p *Pool) Run(jobs []any) []Result {
 	res := make([]Result, len(jobs))
 	var next atomic.Int64
 	var wg sync.WaitGroup
-	for wi := 0; wi < p.N; wi++ {
+	n := p.N
+	if p.Limit > 0 && p.Limit < n {
+		n = p.Limit
+	}
+	for wi := 0; wi < n; wi++ {
 		wg.Add(1)
 		go func(wi int) {
 			defer wg.Done()
